@@ -77,10 +77,17 @@ func main() {
 	eager := flag.String("eager", "", "||-separated runtime-panic sites whose unwinding is executed eagerly")
 	feasSched := flag.Bool("feas-sched", false, "solver feasibility checks at loop back edges in sched mode too")
 	unwindFn := flag.String("unwind-fn", "", "per-function unwinding bounds: Name=n,Name=n")
+	defines := flag.String("define", "", "override integer constants of the harness files: name=value,...")
+	feasPar := flag.Int("feas-par", 8, "solver processes used in parallel for feasibility pruning")
 	settleFeas := flag.Int("settle-feas", 8, "solver feasibility pruning of resting configs when a goroutine has more than this many (0 = off)")
 	eagerAll := flag.Bool("eager-all", false, "execute every potential runtime panic eagerly")
 	instrDir := flag.String("instrument", "", "write instrumented copies of the package sources (for native schedule replay) into this directory and exit")
 	flag.Parse()
+	for _, kv := range strings.Split(*defines, ",") {
+		if i := strings.Index(kv, "="); i > 0 {
+			harnessDefines[kv[:i]] = kv[i+1:]
+		}
+	}
 	if *instrDir != "" {
 		TS = NewTermStore()
 		l, err := loadRepo(*repo, *hdir, nil)
@@ -132,6 +139,7 @@ func main() {
 	e.noPOR = *noPOR
 	e.trace = *trace
 	e.settleFeas = *settleFeas
+	e.feasPar = *feasPar
 	e.unwindFn = map[string]int{}
 	for _, kv := range strings.Split(*unwindFn, ",") {
 		p := strings.SplitN(kv, "=", 2)
@@ -196,6 +204,11 @@ func main() {
 		fmt.Fprintf(os.Stderr, "encoded: instrs=%d terms=%d merges=%d lazy=%d constraints=%d encode_ms=%d\n", e.instrs, TS.next, e.merges, len(e.lazyPanics), len(e.constraints), res.EncodeMs)
 	}
 	res.FeasQueries, res.FeasCut, res.FeasMs = e.feasN, e.feasCut, e.feasMs
+	for _, sv := range e.feasPool {
+		if sv != nil {
+			sv.Close()
+		}
+	}
 	if e.feas != nil {
 		e.feas.Close()
 	}
